@@ -339,3 +339,7 @@ PROPS["C03"]["mir"].append(ob("index_hash_checked", "ob_misc", "index_hash_check
 PROPS["C06"]["mir"].append(ob("index_hash_checked_c06", "ob_misc", "index_hash_checked"))
 PROPS["C03"]["mir"].append(ob("regenerate_pushes_all", "ob_blob", "regenerate_pushes_all", kwargs={"N": 3}))
 PROPS["C06"]["mir"].append(ob("regenerate_pushes_all_c06", "ob_blob", "regenerate_pushes_all", kwargs={"N": 3}))
+PROPS["C13"]["mir"].append(ob("dump_task_single_flight", "ob_misc", "dump_task_single_flight"))
+PROPS["C12"]["mir"] += [ob("inner_new_state", "ob_misc", "inner_new_state"), ob("dump_task_single_flight_c12", "ob_misc", "dump_task_single_flight")]
+PROPS["C07"]["mir"] += [ob("init_new_ids", "ob_misc", "init_new_ids"), ob("inner_new_state_c07", "ob_misc", "inner_new_state")]
+PROPS["C03"]["mir"].append(ob("init_new_ids_c03", "ob_misc", "init_new_ids"))
